@@ -7,6 +7,11 @@ ALL = ["C%02d" % i for i in range(1, 21)]
 
 # property -> (category, technique, text, note, design_ref)
 CHECKS = {
+ "C12": ("exploration",
+   "bounded exhaustive enumeration of every labeling of a small lattice (binary: every labeling with both classes; multinomial: every partition into 2..4 classes) x the full configuration grid, and every target vector over a small in-support alphabet for the Tweedie GLM, against an own f64 gradient of the documented objective cross-checked by an own Newton solve",
+   "Binary: 6/8 lattice points (1-D, duplicated 1-D, 2-D) x every labeling with both classes present (weakly separable ones out of domain at alpha = 0 by an exact integer cone test) x 3 sample orders x feature scales {1,10,100} x alpha {0,.01,1,100} x intercept x initial parameters x label types bool / usize / &str / String with both namings. Multinomial: every partition of 6/7 lattice points into 2, 3, 4 classes x the same grid. Tweedie: power {0,1,1.5,2,3} x link {identity, log, logit} x alpha {0,.1,1} x intercept x every target vector over a 3-letter in-support alphabet, plus single-position out-of-support targets (must be errors). Oracle: gradient norm of the documented objective (sum, alpha/2, intercept unpenalised; Tweedie: 1/2 (deviance + alpha |w|^2)) <= 10 x tolerance, cross-checked by an own damped Newton solve (a case is a violation only if both disagree); trained class set reported; probabilities in [0,1], finite, rows summing to one also for |x.w| up to 1e3; decision == the one the probabilities and the threshold imply outside a 1e-9 margin. Each Tweedie fit runs in a child process with a CPU-time limit so that a non-terminating fit is a reported violation.",
+   "Bounded: n <= 8 points, <= 4 classes. Label-type variants are cycled over the enumeration in quick (all run in thorough). For the identity link with power >= 1 an honest Err is accepted (the objective is undefined for mu <= 0). The +1 / -1 coding rule is not judged (rustdoc and tests contradict each other); only the class set is.",
+   "DESIGN.md 4/C12"),
  "C13": ("exploration",
    "exhaustive run of an enumerated finite catalogue of datasets x the full configuration grid (kernels, C / nu / eps, solver tolerance, shrinking off and on, f32 / f64, six problem types), each published solution checked against dual feasibility and KKT recomputed with an own kernel function",
    "9 lattice-based dataset families (separable, overlapping with conflicting duplicates, imbalanced 1:4, outliers, exact / noisy lines, curves, duplicate abscissae; n in {8,12,20,40} quick, up to 200 thorough so that shrinking triggers) x 5 kernels x C with three weightings / nu / eps_loss grids x solver eps {1e-3, 1e-7} x shrinking {off, on} x f32 / f64 x {C-SVC, nu-SVC, eps-SVR, nu-SVR, one-class, Pr-calibrated}; 14,246 / 21,196 fits, all must terminate. From the published alpha and rho and an own kernel function: box bounds per class weight, equality constraints, KKT sign conditions with tau = 2 x solver eps + rounding, weighted_sum(x) == sum_j alpha_j K(x_j, x) on training and new x, label == sign, Pr monotone in the decision value, nsupport == #{|alpha| > 100 eps}, consistent exit reason; shrinking on / off compared through the same KKT oracle plus a closed-form permutation test.",
@@ -122,7 +127,7 @@ def main():
             "technique": tech,
         })
     na = [{"property_id": p, "reason": "check not built yet (work in progress; planned in DESIGN.md section 4) - not claimed until its check exists and is quiet on the unchanged tree"}
-          for p in ALL if p not in CHECKS]
+          for p in ALL if p not in CHECKS]  # empty once every property has a check: nothing is declared not applicable
     hooks_commits = []
     hf = os.path.join(ROOT, "tools", "hook_commits.txt")
     if os.path.exists(hf):
